@@ -551,7 +551,20 @@ impl<'a> Selector<'a> {
                 }
                 let mut values = Vec::with_capacity(poses.len());
                 while let Some(pos) = poses.pop_front() {
-                    if let Position::Scalar((ty, offset, length)) = pos {
+                    let scalar = match pos {
+                        Position::Scalar(scalar) => Some(scalar),
+                        // the root value can be a scalar wrapped in a scalar container header.
+                        Position::Container((offset, _)) => {
+                            let (rest, (ty, _)) = decode_header(&root[offset..])?;
+                            if ty == SCALAR_CONTAINER_TAG {
+                                let (_, (jty, jlength)) = decode_jentry(rest)?;
+                                Some((jty, offset + 8, jlength))
+                            } else {
+                                None
+                            }
+                        }
+                    };
+                    if let Some((ty, offset, length)) = scalar {
                         let value = match ty {
                             NULL_TAG => PathValue::Null,
                             TRUE_TAG => PathValue::Boolean(true),
